@@ -46,6 +46,8 @@ EXTRA = {
                    "(Props/C06.lean) hold for every table, row index, dispatcher argument and (stateful) converter; "
                    "INCONVERTIBLE_UNIT_INDICATORS is pinned from the source each run.",
     "trusted_base": ["pandas positional column assignment and DataFrame.copy (observed per case)",
+                     "the oracle's reference converters: pint itself (own UnitRegistry, not pdtable.units.pint) and a "
+                     "harness transcription of the demo converter's documented table (not pdtable.demo.unit_converter)",
                      "the recording wrapper around the converter (harness/props/c06.py:Recorder)"],
 }
 
@@ -97,6 +99,42 @@ def pint_conv(*a):
     return pint_converter(*a)
 
 
+_UREG = []
+
+
+def pint_direct(values, from_unit, to_unit=None):
+    """what pint itself says (own registry, never through pdtable.units.pint): the reference for the pint family"""
+    import pint
+    if not _UREG:
+        _UREG.append(pint.UnitRegistry())
+    q = _UREG[0].Quantity(values, from_unit)
+    q = q.to_base_units() if to_unit is None else q.to(to_unit)
+    return q.magnitude, str(q.units)
+
+
+_DEMO_ALIAS = {"meter": "m", "metre": "m", "m\u00e8tre": "m"}
+_DEMO_BASE = {"mm": "m", "C": "K", "g": "kg", "m": "m", "K": "K", "kg": "kg"}
+
+
+def demo_direct(values, from_unit, to_unit=None):
+    """the documented behaviour of the demo converter, written down independently of pdtable.demo.unit_converter"""
+    f = _DEMO_ALIAS.get(from_unit, from_unit)
+    if to_unit is None:
+        if f not in _DEMO_BASE:
+            raise KeyError(f)
+        t = _DEMO_BASE[f]
+    else:
+        t = _DEMO_ALIAS.get(to_unit, to_unit)
+    if to_unit is not None and to_unit == from_unit:
+        return values, to_unit
+    x = values
+    table = {("m", "mm"): lambda: x * 1000, ("mm", "m"): lambda: x / 1000, ("C", "K"): lambda: x + 273.15,
+             ("K", "C"): lambda: x - 273.15, ("kg", "g"): lambda: x * 1000, ("g", "kg"): lambda: x / 1000}
+    if (f, t) not in table:
+        raise KeyError((f, t))
+    return table[(f, t)](), t
+
+
 class ConvBoom(RuntimeError):
     pass
 
@@ -108,6 +146,12 @@ UNITS = {"affine": ["u1", "u2", "uh", "uk", "p", "q"],
 BAD_UNITS = {"affine": ["zz", "m"], "demo": ["furlong", "u1"], "pint": ["kg", "m", "nosuchunit"],
              "ident": ["text", "onoff", "datetime"]}     # special units requested for a numeric column: relabelled
 PURE = {"affine": affine, "demo": demo, "pint": pint_conv, "ident": ident}
+# what the oracle calls to obtain the expected values: for the two converters that ship with pdtable, references that
+# do not go through pdtable's own modules
+REF = {"affine": affine, "demo": demo_direct, "pint": pint_direct, "ident": ident}
+# units that differ in letter case only and are different units (milli / mega, …)
+CASE_PAIRS = [("mm", "Mm"), ("mPa", "MPa"), ("mW", "MW"), ("ms", "Ms"), ("mg", "Mg"), ("mN", "MN")]
+CASE_PARTNER = {a: b for a, b in CASE_PAIRS} | {b: a for a, b in CASE_PAIRS}
 
 
 class Recorder:
@@ -257,10 +301,25 @@ def build_to(spec, colnames):
     if k == "callable":
         d = {kk: v for kk, v in spec["m"]}
         f = (lambda name: d.get(name))
+        f.backing = d
         return f, {"kind": "fn", "m": [[nm, f(nm)] for nm in colnames]}
     if k == "other":
         return {"int": 5, "none": None, "set": {"a", "b"}, "float": 3.5}[spec["what"]], {"kind": "other"}
     raise InfraError("unknown dispatcher kind " + k)
+
+
+def freeze_to(to_obj):
+    """value-level picture of the caller's dispatcher argument (dict entries in order, list elements, the state a
+    callable closes over)"""
+    if isinstance(to_obj, dict):
+        return ["dict"] + [[k, v] for k, v in to_obj.items()]
+    if isinstance(to_obj, (list, tuple)):
+        return [type(to_obj).__name__] + list(to_obj)
+    if callable(to_obj) and hasattr(to_obj, "backing"):
+        return ["callable"] + [[k, v] for k, v in to_obj.backing.items()]
+    if isinstance(to_obj, set):
+        return ["set"] + sorted(to_obj)
+    return [type(to_obj).__name__, repr(to_obj)]
 
 
 # ---------------------------------------------------------------- the implementation under observation
@@ -276,7 +335,7 @@ def run_impl(case):
         rec = Recorder(PURE[cv["pure"]], fail_at=cv.get("fail_at"), badlen=cv.get("badlen"))
     to_obj, to_model = build_to(case["to"], [c["name"] for c in before["cols"]])
     old_default = pdtable.units.default_converter
-    res = {"before": before, "to_model": to_model}
+    res = {"before": before, "to_model": to_model, "to_before": freeze_to(to_obj)}
     dec = Recorder(decoy) if cv.get("decoy_default") else None
     try:
         with warnings.catch_warnings():
@@ -306,8 +365,22 @@ def run_impl(case):
             res["unreadable"] = type(e).__name__
             res["result"] = None
     res["after"] = snapshot(t)
+    res["to_after"] = freeze_to(to_obj)
     res["log"] = rec.log if rec is not None else []
     res["decoy_log"] = dec.log if dec is not None else []
+    # the SAME dispatcher object used again for further conversions of the same (unchanged) table: same outcome
+    res["repeats"] = []
+    for _ in range(case.get("repeat", 0) if rec is not None and dec is None and not cv.get("as_default") else 0):
+        rec_i = Recorder(PURE[cv["pure"]], fail_at=cv.get("fail_at"), badlen=cv.get("badlen"))
+        try:
+            with warnings.catch_warnings():
+                warnings.simplefilter("ignore")
+                r_i = t.convert_units(to_obj, rec_i)
+            o_i = {"result": snapshot(r_i)}
+        except Exception as e:
+            o_i = {"exc": type(e).__name__}
+        o_i["log"] = [{k: v for k, v in e.items() if k != "nargs"} for e in rec_i.log]
+        res["repeats"].append(o_i)
     if r is not None and res.get("result") is not None and res["is_new"] and res["result_type"] == "Table":
         try:
             with warnings.catch_warnings():
@@ -382,6 +455,17 @@ def oracle(case, obs, out):
         fail("the returned table changed when the original was edited in place (shared state)",
              obs["result_after_orig_edit"][1], obs["result_after_orig_edit"][0], "alias:original->result")
         return
+    if obs["to_after"] != obs["to_before"]:
+        fail("convert_units changed the caller's dispatcher argument", obs["to_after"], obs["to_before"],
+             "dispatcher_argument_modified")
+        return
+    first = {"exc": obs["exc"]} if "exc" in obs else {"result": obs.get("result")}
+    first["log"] = [{k: v for k, v in e.items() if k != "nargs"} for e in obs["log"]]
+    for n_rep, o_i in enumerate(obs.get("repeats", []), 2):
+        if o_i != first and not obs.get("unreadable"):
+            fail(f"conversion number {n_rep} with the same dispatcher object and the same table gives another outcome",
+                 o_i.get("exc") or o_i.get("result"), first.get("exc") or first.get("result"), "repeat_differs")
+            return
     if obs.get("decoy_log"):
         fail("the module default converter was consulted although a converter was passed explicitly",
              [[e["from"], e["to"]] for e in obs["decoy_log"]], [], "default_overrides_explicit")
@@ -395,7 +479,7 @@ def oracle(case, obs, out):
     if any(t in ("__origin__",) for t in targets) or (case["to"]["kind"] != "str" and "__base__" in targets):
         out.count("oracle:original_only")
         return   # per-column spellings: modelled, not part of the statement
-    pure = PURE[cv["pure"]]
+    pure = REF[cv["pure"]]
     if obs.get("unreadable"):
         fail("convert_units returned a table whose units / values cannot be read", obs["unreadable"], "a Table",
              "unreadable:" + obs["unreadable"])
@@ -541,6 +625,8 @@ def gen_table(rng, family):
             c = {"kind": "bool", "unit": "onoff", "values": [rng.choice([True, False]) for _ in range(n)]}
         else:
             c = {"kind": "datetime", "unit": "datetime", "values": [rng.choice(TS) for _ in range(n)]}
+        if family == "pint" and kind in ("int", "float") and rng.random() < 0.35:
+            c["unit"] = rng.choice(list(CASE_PARTNER))
         c["name"] = nm
         cols.append(c)
     ik = rng.choice(["default", "default", "permuted", "offset", "strings", "dup", "floats"])
@@ -555,6 +641,8 @@ def unit_choice(rng, col, family):
     """a target for one column: None / same / another known unit / an unknown unit"""
     if col["unit"] in SPECIAL:
         return rng.choice([None, None, None, col["unit"], rng.choice(UNITS[family]), "text", "onoff"])
+    if family == "pint" and col["unit"] in CASE_PARTNER and rng.random() < 0.6:
+        return CASE_PARTNER[col["unit"]]           # the same letters in another case: a different unit
     r = rng.random()
     if r < 0.25:
         return None
@@ -617,7 +705,10 @@ def gen_case(rng, seed, idx, tier):
     if table["nrows"] == 0 and conv.get("badlen"):
         # pandas re-indexes a frame without rows to whatever length is assigned: outside the model (EXTRA)
         conv = {"kind": "pure", "pure": family}
-    return {"seed": seed, "index": idx, "family": family, "table": table, "to": to, "conv": conv}
+    case = {"seed": seed, "index": idx, "family": family, "table": table, "to": to, "conv": conv}
+    if to["kind"] in ("dict", "list", "callable") and rng.random() < 0.4:
+        case["repeat"] = rng.choice([1, 2])
+    return case
 
 
 def fixed_cases(seed):
@@ -655,6 +746,20 @@ def fixed_cases(seed):
     for s in ("pq", "qp", "pp", "ab", "p", "base", "origin"):
         out.append({"seed": seed, "index": -1 - len(out), "family": "affine", "table": copy.deepcopy(two),
                     "to": {"kind": "str", "s": s}, "conv": dict(pure)})
+    # pint: units that differ in letter case only (milli vs mega) requested through every explicit form
+    pt = {"name": "t", "dests": ["all"], "nrows": 3, "index": [1, 2, 0], "index_kind": "permuted", "cols": [
+        {"name": "a", "kind": "float", "unit": "mm", "values": [1.5, None, 2500.0]},
+        {"name": "b", "kind": "int", "unit": "MPa", "values": [1, 2, 3]},
+        {"name": "c", "kind": "float", "unit": "mW", "values": [0.5, 1e6, -3.0]}]}
+    for to in ({"kind": "dict", "m": [["a", "Mm"], ["b", "mPa"], ["c", "MW"]]}, {"kind": "list", "xs": ["Mm", "mPa", "MW"]},
+               {"kind": "callable", "m": [["a", "Mm"], ["c", "MW"]]}, {"kind": "tuple", "xs": ["Mm", None, None]}):
+        out.append({"seed": seed, "index": -1 - len(out), "family": "pint", "table": copy.deepcopy(pt), "to": to,
+                    "conv": {"kind": "pure", "pure": "pint"}, "repeat": 1})
+    # one mapping / list / callable object used for three consecutive conversions
+    for to in ({"kind": "dict", "m": [["a", "u1"], ["zz", "q"], ["b", "uk"]]}, {"kind": "list", "xs": ["u1", "uk", None, None, None]},
+               {"kind": "callable", "m": [["b", "uk"]]}, {"kind": "dict", "m": []}):
+        out.append({"seed": seed, "index": -1 - len(out), "family": "affine", "table": copy.deepcopy(t), "to": to,
+                    "conv": dict(pure), "repeat": 2})
     return out
 
 
@@ -668,6 +773,10 @@ def eval_case(case, out, ops, pend, model_ok, record=True):
         out.count("config:other_default_converter_installed")
     if "orig_after_result_edit" in obs:
         out.count("aliasing_probed")
+    if obs.get("repeats"):
+        out.count("same_dispatcher_object_reused", len(obs["repeats"]))
+    if case["family"] == "pint" and any(c["unit"] in CASE_PARTNER for c in case["table"]["cols"]):
+        out.count("pint_case_only_units")
     if "probe_error" in obs:
         out.count("aliasing_probe_error:" + obs["probe_error"])
     out.count("index:" + case["table"].get("index_kind", "?"))
@@ -699,7 +808,8 @@ def run(tier, seed, model_ok, translator, search=False):
                 "non-dispatcher objects, per-column __base__/__origin__) x converter (affine with known inverse, "
                 "pdtable.demo convert_this, pdtable pint_converter; each also failing on its k-th call, returning a "
                 "wrong length, installed as default converter, passed explicitly while a DIFFERENT converter is the "
-                "module default, or absent); after every returned table the result and then the original are edited "
+                "module default, or absent); pint units differing in letter case only; the caller's dispatcher object compared with its snapshot "
+                "and reused for up to three consecutive conversions; after every returned table the result and then the original are edited "
                 "in place (destinations, name, a unit, a cell) and the other one is compared with its snapshot. Non-trivial: the converter was called or a "
                 "special column was refused.")
     rng = make_rng(seed, "C06")
